@@ -135,8 +135,11 @@ def scenario(rng, kind=None, mode=None, removal=None, builtin_p=0.6, prog_p=0.4)
             # ONE curve, measured a hair away from the feed temperature (an ulp .. a few tenths of a kelvin): not AT it
             t_curve = float(T0) * (1.0 + rng.choice([-1.0, 1.0]) * (gen.logu(rng, 1e-7, 1e-3) if rng.random() < 0.7 else gen.logu(rng, 3e-16, 1e-7)))
             single_off = False
+        exact_single = (not hair) and rng.random() < 0.25       # ONE curve measured exactly at the feed temperature
+        if exact_single:
+            t_curve, single_off = T0, False
         sc["curves"] = make_curve_set(rng, mix, t_center=t_curve,
-                                      n_curves=None if single_off else (1 if hair else rng.choice([1, 2, 3])),
+                                      n_curves=None if single_off else (1 if (hair or exact_single) else rng.choice([1, 2, 3])),
                                       ctype=gen.tstr(rng, rng.choice(["weight", "weight", "molar"])))
         if rng.random() < 0.5:
             sc["P0"] = (gen.logu(rng, 1e-3, 0.2), gen.logu(rng, 1e-5, 1e-2), gen.tstr(rng, rng.choice([KG, KG, "SI", "GPU"])))
